@@ -1090,6 +1090,25 @@ impl<'a, 'ast> Visit<'ast> for Cx<'a> {
 fn expand_local_macros(text: &str, names: &[String], ix: &Index, file: &str, log: &mut Vec<Value>, base_line: usize) -> Result<String, Undecided> {
     let mut text = text.to_string();
     for name in names {
+        // a macro_rules! defined inside the body itself (a local helper): its definition is blanked out and its
+        // invocations are expanded from it
+        let mut local: Option<(Vec<String>, String)> = None;
+        if let Ok(block) = syn::parse_str::<syn::Block>(&text) {
+            for st in &block.stmts {
+                if let syn::Stmt::Item(syn::Item::Macro(m)) = st {
+                    if m.mac.path.is_ident("macro_rules") && m.ident.as_ref().map(|i| i == name).unwrap_or(false) {
+                        let (params, body_range) = crate::index::parse_macro_rules(m, &text)?;
+                        let body = text[body_range].to_string();
+                        let r = m.span().byte_range();
+                        let blank: String = text[r.clone()].chars().map(|c| if c == '\n' { '\n' } else { ' ' }).collect();
+                        log.push(json!({"rule": "N10", "line": base_line + line_of(&text, r.start) - 1, "before": crate::one_line_pub(&text[r.clone()]), "after": "(local macro definition: expanded at its uses)"}));
+                        text.replace_range(r, &blank);
+                        local = Some((params, body));
+                        break;
+                    }
+                }
+            }
+        }
         let pat = format!("{}!(", name);
         let mut guard = 0;
         while let Some(p) = text.find(&pat) {
@@ -1100,7 +1119,11 @@ fn expand_local_macros(text: &str, names: &[String], ix: &Index, file: &str, log
             let start = p + pat.len();
             let mut depth = 1i32;
             let mut end = None;
+            let mask = crate::index::literal_mask(&text[start..]);
             for (i, c) in text[start..].char_indices() {
+                if mask[i] {
+                    continue;
+                }
                 if c == '(' {
                     depth += 1;
                 } else if c == ')' {
@@ -1113,7 +1136,23 @@ fn expand_local_macros(text: &str, names: &[String], ix: &Index, file: &str, log
             }
             let end = end.ok_or_else(|| Undecided(format!("unbalanced {}!(", name)))?;
             let args = text[start..end].to_string();
-            let vf = ix.expand_macro_text(name, &args, Some(file))?;
+            let vf = match &local {
+                Some((params, body)) => {
+                    let argv: Vec<String> = crate::index::split_top_commas(&args);
+                    if argv.len() != params.len() {
+                        bail!("macro {}: {} params, {} args", name, params.len(), argv.len());
+                    }
+                    let mut b = body.clone();
+                    let mut order: Vec<usize> = (0..params.len()).collect();
+                    order.sort_by_key(|i| std::cmp::Reverse(params[*i].len()));
+                    for i in order {
+                        b = crate::index::replace_metavar(&b, &params[i], argv[i].trim());
+                    }
+                    // parenthesised: a bare block right after a loop body confuses Verus's clause parser
+                    format!("({{ {} }})", b.trim())
+                }
+                None => ix.expand_macro_text(name, &args, Some(file))?,
+            };
             let before = text[p..end + 1].to_string();
             let line = base_line + line_of(&text, p) - 1;
             let rep = crate::one_line_pub(&vf);
